@@ -25,6 +25,7 @@ structure St where
   reported : Bool := false
   incoherent : Bool := false
   globalsReported : Bool := false
+  ctxReported : Bool := false
 
 def field (ws : List String) (name : String) : Option String :=
   (ws.find? (·.startsWith (name ++ "="))).map (fun w => (w.drop (name.length + 1)).toString)
@@ -65,7 +66,7 @@ def step (st : St) (pre post : List String) : St × Verdict :=
       else ({ st with plumbing := some p }, .diff s!"probe: model {showMarks want} impl {showMarks obs}")
     | none, _ => (st, .diff s!"probe: the real simulate path matches neither the as-is nor the fixed plumbing: {post}")
     | _, none => (st, .bad "probe marks")
-  | ["hist", _, kind, _, _] => ({ st with kind := kind, ablk := [], bcount := 0, reported := false, incoherent := false, globalsReported := false }, .ok)
+  | ["hist", _, kind, _, _] => ({ st with kind := kind, ablk := [], bcount := 0, reported := false, incoherent := false, globalsReported := false, ctxReported := false }, .ok)
   | ["crash", _, role] =>
     if role = "B" then ({ st with reported := true }, .propfail (sigOf st.kind) s!"twin B crashed or hung: {" ".intercalate (post.take 30)}")
     else (st, .diff s!"twin A crashed: {" ".intercalate (post.take 30)}")
@@ -100,6 +101,12 @@ def step (st : St) (pre post : List String) : St × Verdict :=
       match modelV with
       | .ok =>
         if changed then (st, .propfail (sigOf kind) detail)
+        else if (field post "ctxc") ≠ (field post "ctxf") && !st.ctxReported then
+          -- GlobalCtxCache: every cached context must be the freshly loaded version of its height (header and contents)
+          let c := ((field post "ctxc") >>= parseItems).getD []
+          let f := ((field post "ctxf") >>= parseItems).getD []
+          let bad := c.filter fun e => (f.find? (·.1 = e.1)).map (·.2) ≠ some e.2
+          ({ st with ctxReported := true }, .propfail "ctxcache-poisoned-by-offchain-call" s!"{" ".intercalate (pre.drop 2)}: cached contexts (height:header.contents) {renderItems bad} differ from fresh loads {renderItems (f.filter fun e => bad.any (·.1 = e.1))}")
         else if (field post "ans").isSome && (field post "com") ≠ some "?" && (field post "ans") ≠ (field post "com") then
           -- model: `queryCustom` at the latest height reads `versions.getLast?`, the last COMMITTED version
           (st, .propfail "customquery-reads-working-state" s!"{" ".intercalate (pre.drop 2)}: answer {(field post "ans").getD "?"} but the last committed version holds {(field post "com").getD "?"} (working state: {(field post "wrk").getD "?"}): the query context aliases the working trees of the root multistore")
